@@ -745,6 +745,27 @@ func init() {
 				w.opSwap(w.users[2], "rowan", "ceth", e18(1), big.NewInt(0))
 			}
 		}
+		// D6: a reward period with mod > 1 whose first distribution blocks find nothing to reward (no pool yet,
+		// then a pool with multiplier 0), then depth appears: the accumulator must be cleared on every
+		// distribution block
+		for _, dist := range []bool{false, true} {
+			w := newAmmWorld(rng, out, 3, -1)
+			w.fundAll()
+			def := sdk.OneDec()
+			a := sdk.NewUint(30000)
+			per := &clptypes.RewardPeriod{RewardPeriodId: "rp", RewardPeriodStartBlock: 1, RewardPeriodEndBlock: 30, RewardPeriodAllocation: &a, RewardPeriodDefaultMultiplier: &def, RewardPeriodDistribute: dist, RewardPeriodMod: 3}
+			p := w.app.ClpKeeper.GetRewardsParams(w.ctx)
+			p.RewardPeriods = []*clptypes.RewardPeriod{per}
+			w.app.ClpKeeper.SetRewardParams(w.ctx, p)
+			w.cfg("rewardperiod 1 30 30000 3 " + b2s(dist) + " 1000000000000000000")
+			for i := 0; i < 5 && !w.halted; i++ {
+				w.opEndBlock()
+			}
+			w.opCreate(w.users[0], "cusdc", e18(10), e18(10))
+			for i := 0; i < 8 && !w.halted; i++ {
+				w.opEndBlock()
+			}
+		}
 		// D5: a zero-unit provider is the only eligible provider of an asset with a funded bucket
 		{
 			w := newAmmWorld(rng, out, 3, -1)
